@@ -49,7 +49,9 @@ def cases(tier, seed):
                         out.append(dict(type="subset", kind=kind, d=d, terms=list(sub), ncomp=1 + variant * 2, b=2 + variant, n_out=1 + variant))
             for ncomp in (1, 2, 3):
                 for b in range(1, B["bmax"] + 1):
-                    for w in ("one", "scalar", "scalar0d", "vector"):
+                    for w in ("one", "scalar", "scalar0d", "vector", "zero", "int"):
+                        if w in ("zero", "int") and (b > 2 or ncomp == 2):
+                            continue
                         out.append(dict(type="dyn", kind=kind, d=d, ncomp=ncomp, b=b, weight=w, n_out=2 if ncomp == 3 else 1))
     out.sort(key=lambda c: (c["type"] != "subset", len(c.get("terms", [])), c["b"]))
     return out
@@ -117,8 +119,18 @@ def run_case(case):
         loss, params, batch, (coef, expo, pts) = build(case, terms, 1.7)
         total, td = L.jit_eval(loss, params, batch)
         total, td = float(total), {k: float(x) for k, x in td.items()}
+        plain = None
+        if batch.obs_batch_dict is not None and batch.obs_batch_dict["eq_params"]:
+            # the same batch without the observed column, evaluated before and after the eager call that carries the column
+            import equinox as eqx
+            plain_batch = eqx.tree_at(lambda b_: b_.obs_batch_dict, batch, dict(batch.obs_batch_dict, eq_params={}))
+            plain = {k: float(x) for k, x in L.jit_eval(loss, params, plain_batch)[1].items()}
         etotal, etd = loss.evaluate(params, batch)  # eager: Python-level dictionary order is visible here
         etd = {k: float(x) for k, x in etd.items()}
+        if plain is not None:
+            again = {k: float(x) for k, x in loss.evaluate(params, plain_batch)[1].items()}
+            if any(abs(again[k] - plain[k]) > 1e-12 * (1 + abs(plain[k])) for k in plain):
+                v.append(V(site, "terms_depend_on_an_earlier_evaluation_with_an_observed_parameter_column", f"terms {terms}: before {plain} after {again}"))
         if any(abs(etd[k] - td[k]) > 1e-12 * (1 + abs(td[k])) for k in td):
             v.append(V(site, "eager_terms_differ_from_jitted_terms", f"terms {terms}: eager {etd} jit {td}"))
         if not close(total, sum(td.values()), 1e-12):
@@ -139,7 +151,8 @@ def run_case(case):
         return dict(viol=v, evals=1, nontrivial=[str(case)] if nz else [], outcomes=[f"{case['kind']}|{sorted(nz)}"], sample={"case": case, "terms_returned": td})
     # ---- dynamic term alone
     ncomp, b = case["ncomp"], case["b"]
-    w = {"one": 1.0, "scalar": 2.5, "scalar0d": jnp.asarray(2.5), "vector": jnp.asarray([1.0, 0.5, 2.0][:ncomp])}[case["weight"]]
+    # "zero": a term switched off by a weight that is exactly the Python number 0.0 ; "int": a Python integer
+    w = {"one": 1.0, "scalar": 2.5, "scalar0d": jnp.asarray(2.5), "vector": jnp.asarray([1.0, 0.5, 2.0][:ncomp]), "zero": 0.0, "int": 2}[case["weight"]]
     loss, params, batch, (coef, expo, pts) = build(case, ["dyn"], w)
     _, td = L.jit_eval(loss, params, batch)
     val = float(td["dyn_loss"])
@@ -170,4 +183,4 @@ def run_case(case):
     n += 1
     if not close(sv, 3.0 * val, 1e-12):
         v.append(V(site, "dynamic_term_not_linear_in_its_weight", f"{sv} vs 3*{val}"))
-    return dict(viol=v, evals=n, nontrivial=[str(case)] if exp != 0 else [], outcomes=[f"{case['kind']}|{round(exp, 6)}"], sample={"case": case, "value": val})
+    return dict(viol=v, evals=n, nontrivial=[str(case)] if (exp != 0 or case["weight"] == "zero") else [], outcomes=[f"{case['kind']}|{round(exp, 6)}"], sample={"case": case, "value": val})
